@@ -37,6 +37,7 @@ CACHE = os.path.join(ROOT, '.cache')
 EVID = os.path.join(OUT, 'evidence')
 REPLAYS = os.path.join(OUT, 'replays')
 RLIMIT = 60            # Verus --rlimit (seconds-ish); generous and fixed
+NO_CACHE = False
 
 
 class Undecided(Exception):
@@ -170,6 +171,149 @@ def V(unit, vcfile=None, variant=None, defines=None, note='', tags=None, only_fn
             'tags': tags, 'only_fns': only_fns, 'canary': canary}
 
 
+def K(harness, kind, text, tags, bound=None, tier='quick'):
+    """Kani harness on the real crates. kind: 'complete' (loop-free, full-domain: a proof) or 'bounded' (stand-in, never counted as proved).
+    tier='thorough': too slow for the every-change check (measured minutes), run by the thorough command only"""
+    return {'harness': harness, 'kind': kind, 'text': text, 'tags': tags, 'bound': bound, 'tier': tier}
+
+
+KANI = {
+    'C02': [K('book::mid_price_exact', 'complete', 'for every pair of touch prices (crossed included) mid_price() does not panic and equals (bid + ask) / 2 exactly; bid_ask stubbed by its Verus-proved contract', ['C02.mid_price'])],
+    'C16': [
+        K('proofs::round_down_grid', 'complete', 'round_price_down: tick 1..=10, EVERY f64 p with 0 <= p <= 2^32-11: result on the grid, <= p, within one tick (measured 236 s)', ['C16.rounding'], tier='thorough'),
+        K('proofs::round_up_grid', 'complete', 'round_price_up: tick 1..=10, EVERY f64 p with 0 <= p <= 2^32-11: result on the grid, within one tick above and less than 1 below p (measured ~9 min)', ['C16.rounding'], tier='thorough'),
+        K('agents::helper_buy_limit', 'complete', 'place_buy_limit_order (real body, every distribution, every generator, mid a half-integer in [1, 1e6], tick 1..=10): Ok, price on grid and <= mid, configured volume and trader', ['C16.buy_below_mid']),
+        K('agents::helper_sell_limit', 'complete', 'place_sell_limit_order (same domain): price >= mid, configured volume and trader, on grid unless clamped to Price::MAX', ['C16.sell_above_mid']),
+        K('agents::cancel_live_orders_rules', 'bounded', 'cancel_live_orders (real body; Env::order_status / cancel_order stubbed by their contracts; every status pair, every generator): only listed Active orders are cancelled, p >= 1 cancels all, p == 0 cancels none', ['C16.cancel_rules'], bound='two orders in the list; unwind 12'),
+        K('agents::noise_update_rules', 'bounded', 'NoiseAgent::update (real body; callees stubbed by recording contracts; every generator): p in {0} u [1, inf) gives exactly the documented number of instructions with the configured volume and the own trader id', ['C16.activity'], bound='one trader, one call; unwind 12'),
+        K('market_agents::helper_buy_limit_market', 'complete', 'place_buy_limit_order_market (real body, every distribution / generator): Ok, own asset, price on grid and <= mid, configured volume and trader', ['C16.buy_below_mid']),
+        K('market_agents::helper_sell_limit_market', 'complete', 'place_sell_limit_order_market: own asset, price >= mid, configured volume and trader, on grid unless clamped', ['C16.sell_above_mid']),
+        K('market_agents::noise_market_update_rules', 'bounded', 'NoiseMarketAgent::update: documented number of instructions for p in {0} u [1, inf), configured volume, own trader id, own asset', ['C16.activity'], bound='one trader, one call; unwind 12'),
+        K('momentum_memory::momentum_carried_over', 'bounded', 'MomentumAgent: with decay 1/2 a move followed by a flat step still trades once (activity follows the documented probability computed from the carried-over signal)', ['C16.activity'], bound='one trader, three calls'),
+        K('proofs::round_clamp_on_grid', 'complete', 'round_price_up for EVERY finite request is on the grid (expected to fail: known finding, clamp to Price::MAX)', ['C16.clamp_finding']),
+        K('agents::helper_sell_limit_always_on_grid', 'complete', 'place_sell_limit_order with an arbitrary finite draw submits an on-grid price (expected to fail: known finding)', ['C16.clamp_finding']),
+    ],
+    'C17': [
+        K('agents::momentum_falling_sells', 'bounded', 'MomentumAgent::update twice with a falling mid (saturated demand): exactly one SELL market order of the configured volume by the own trader', ['C17.sells_when_falling'], bound='one trader, two calls, decay 1, demand 5, scale 0.5, drop in 6..=1000; tanh replaced by a sign-preserving saturating model; unwind 12'),
+        K('agents::momentum_rising_buys', 'bounded', 'rising mid: exactly one BUY market order (plus one buy limit order when the order ratio is >= 1)', ['C17.buys_when_rising'], bound='as above; rise in 6..=1000'),
+        K('agents::momentum_flat_nothing', 'bounded', 'unchanged mid (M == 0): nothing is submitted', ['C17.flat'], bound='as above'),
+        K('market_agents::momentum_market_direction', 'bounded', 'MomentumMarketAgent::update twice (integer and half-tick mids): falling mid -> one SELL, rising mid -> one BUY, own asset', ['C17.market_variant'], bound='one trader, two calls, decay 1; unwind 12'),
+        K('momentum_memory::momentum_carried_over', 'bounded', 'decay 1/2: a move of 32 followed by a flat step still trades once in the direction of the move (M carried over by the documented recursion)', ['C17.recursion'], bound='one trader, three calls'),
+        K('momentum_memory::momentum_zero_signal_resets', 'bounded', 'decay 1/2: when M returns to exactly zero the following flat step submits nothing', ['C17.recursion'], bound='one trader, four calls'),
+    ],
+}
+
+
+def kani_version():
+    p = sh(['cargo', 'kani', '--version'])
+    return ' '.join((p.stdout + p.stderr).split())[:80]
+
+
+def kani_sources_hash():
+    h = hashlib.sha256()
+    roots = [os.path.join(REPO, 'crates', 'order_book', 'src'), os.path.join(REPO, 'crates', 'step_sim', 'src'), os.path.join(REPO, 'crates', 'macros', 'src'), os.path.join(ROOT, 'kani')]
+    for r in roots:
+        for d, _, fs in sorted(os.walk(r)):
+            for f in sorted(fs):
+                if f.endswith(('.rs', '.in', '.toml')):
+                    h.update(f.encode())
+                    h.update(open(os.path.join(d, f), 'rb').read())
+    for f in ('Cargo.toml', 'Cargo.lock'):
+        pth = os.path.join(REPO, f)
+        if os.path.exists(pth):
+            h.update(open(pth, 'rb').read())
+    return h.hexdigest()
+
+
+def run_kani(pid, seed, tier):
+    """Runs the property's harnesses in one `cargo kani` invocation (-j), parses per-harness results. Cached by a hash of the crates' sources."""
+    hs = [h for h in KANI.get(pid, []) if h.get('tier', 'quick') == 'quick' or tier == 'thorough']
+    if not hs:
+        return []
+    key = hashlib.sha256((kani_sources_hash() + '|' + ','.join(h['harness'] for h in hs) + kani_version()).encode()).hexdigest()
+    cp = os.path.join(CACHE, 'kani_' + key + '.json')
+    if os.path.exists(cp) and tier == 'quick':
+        out = json.load(open(cp))
+        for o in out:
+            o['result_from_cache'] = True
+        return out
+    b = os.path.join(BUILD, 'kani')
+    os.makedirs(b, exist_ok=True)
+    with open(os.path.join(b, 'Cargo.toml'), 'w') as f:
+        f.write(open(os.path.join(ROOT, 'kani', 'Cargo.toml.in')).read().replace('@REPO@', REPO))
+    sh(['rm', '-rf', os.path.join(b, 'src')])
+    sh(['cp', '-r', os.path.join(ROOT, 'kani', 'src'), os.path.join(b, 'src')])
+    if os.path.exists(os.path.join(REPO, 'Cargo.lock')):
+        sh(['cp', os.path.join(REPO, 'Cargo.lock'), os.path.join(b, 'Cargo.lock')])
+    cmd = ['cargo', 'kani', '-Z', 'stubbing', '--exact', '-j', '8', '--output-format', 'terse']
+    for h in hs:
+        cmd += ['--harness', h['harness']]
+    env = dict(os.environ, CARGO_NET_OFFLINE='true')
+    try:
+        p = subprocess.run(cmd, cwd=b, capture_output=True, text=True, env=env, timeout=3000)
+    except subprocess.TimeoutExpired:
+        raise Undecided('cargo kani timed out')
+    log = p.stdout + '\n' + p.stderr
+    with open(os.path.join(b, 'last_%s.log' % pid), 'w') as f:
+        f.write(log)
+    if 'error: could not compile' in log or 'error[E' in log or 'Failed to match the following harness' in log:
+        raise Undecided('the Kani harness crate does not compile against this tree (or a harness is missing): %s' % log[-600:])
+    # terse -j output: "Thread N: Checking harness X..." / "Thread N:   - Stub: .." / "Thread N: " followed by an unprefixed result block
+    cur = {}
+    secs = {}
+    stubs = {}
+    active = None
+    for line in log.split('\n'):
+        m = re.match(r'Thread (\d+): Checking harness ([\w:]+)\.\.\.', line)
+        if m:
+            cur[m.group(1)] = m.group(2)
+            secs.setdefault(m.group(2), [])
+            active = None
+            continue
+        m = re.match(r'Thread (\d+):\s+- Stub: (.*)', line)
+        if m:
+            stubs.setdefault(cur.get(m.group(1)), []).append(' '.join(m.group(2).split()))
+            continue
+        m = re.match(r'Thread (\d+):\s*$', line)
+        if m:
+            active = cur.get(m.group(1))
+            continue
+        if re.match(r'Thread (\d+):', line):
+            active = None
+            continue
+        if active is not None:
+            secs[active].append(line)
+    out = []
+    for h in hs:
+        sec = '\n'.join(secs.get(h['harness'], []))
+        r = dict(h)
+        r['cmd'] = ' '.join(cmd)
+        if h['harness'] not in secs or 'VERIFICATION:-' not in sec:
+            raise Undecided('no verdict for harness %s in the Kani output (out of memory / timeout?)' % h['harness'])
+        m = re.search(r'Verification Time: ([0-9.]+)s', sec)
+        r['seconds'] = float(m.group(1)) if m else None
+        m = re.search(r'\*\* (\d+) of (\d+) failed', sec)
+        r['checks'] = int(m.group(2)) if m else None
+        r['stubs'] = stubs.get(h['harness'], [])
+        fails = []
+        for fm in re.finditer(r'Failed Checks: (.*)\n\s*File: "(.*?)", line (\d+), in (\S+)', sec):
+            fails.append({'check': fm.group(4), 'description': fm.group(1), 'location': '%s:%s in %s' % (fm.group(2), fm.group(3), fm.group(4))})
+        r['failed_checks'] = fails
+        if 'VERIFICATION:- SUCCESSFUL' in sec:
+            r['status'] = 'successful'
+        else:
+            r['status'] = 'failed'
+            # failures outside the harness and outside the repository (std / Kani library internals) are undecided, never an alarm
+            inside = [f for f in fails if ('src/lib.rs' in f['location'] or 'crates/' in f['location'])]
+            if not inside:
+                raise Undecided('harness %s fails without a failed check inside the harness or the repository (library internals / unwinding / resources): %s' % (h['harness'], fails[:1]))
+        r['result_from_cache'] = False
+        out.append(r)
+    os.makedirs(CACHE, exist_ok=True)
+    json.dump(out, open(cp, 'w'))
+    return out
+
+
 def R(name, args, bound):
     """bounded stand-in executed by the replay runner on the real code; never counted as proved"""
     return {'engine': 'replay', 'name': name, 'args': args, 'bound': bound}
@@ -199,6 +343,8 @@ PROPS = {
                                   note='modify_order with the unconditional grid clause (expected refutation, known finding)')], 'design': '§5 C12'},
     'C13': {'legs': [V('book'), V('market'), V('env'), V('menv')], 'design': '§5 C13'},
     'C14': {'legs': [V('market'), V('menv')], 'design': '§5 C14'},
+    'C16': {'legs': [], 'design': '§5 C16'},
+    'C17': {'legs': [], 'design': '§5 C17'},
     'C18': {'legs': [V('py'), V('book')], 'design': '§5 C18'},
     'C20': {'legs': [{'engine': 'derive'}], 'design': '§5 C20'},
     'C19': {'legs': [V('py')], 'design': '§5 C19'},
@@ -295,10 +441,25 @@ def decide_verus_leg(pid, leg, tier, seed, log):
     if u.meta['warnings']:
         for w in u.meta['warnings']:
             log('warning: ' + w)
-    res = u.verify(seed=0, funcs=leg.get('only_fns'))
+    thorough = (tier == 'thorough')
+    res = u.verify(seed=0, funcs=leg.get('only_fns'), use_cache=not (thorough or NO_CACHE))
     if res.get('frontend_error'):
         raise Undecided('verus front end on unit %s: %s' % (u.label, res['frontend_error']))
     fails, infra = u.failures(res)
+    extra_seeds = []
+    if thorough:
+        # thorough: nothing from the cache, and the whole unit again under two further solver seeds derived from VERIF_SEED:
+        # every seed must give the same set of refuted obligations (a proof that depends on the seed is reported as undecided)
+        base_ids = sorted(x['full'] for x in fails)
+        for s2 in (101 + 2 * (seed % 1000), 202 + 2 * (seed % 1000)):
+            r2 = u.verify(seed=s2, funcs=leg.get('only_fns'), use_cache=False)
+            if r2.get('frontend_error'):
+                raise Undecided('verus front end on unit %s (seed %d): %s' % (u.label, s2, r2['frontend_error']))
+            f2, i2 = u.failures(r2)
+            extra_seeds.append({'seed': s2, 'verified': r2['verified'], 'errors': r2['errors'], 'smt_ms': r2['smt_ms'], 'wall_s': round(r2.get('wall_s', 0), 1)})
+            if sorted(x['full'] for x in f2) != base_ids or i2:
+                raise Undecided('unit %s: solver seed %d gives a different result than seed 0 (unstable proof): %s vs %s %s' % (u.label, s2, sorted(x['full'] for x in f2)[:3], base_ids[:3], i2[:2]))
+    res['extra_seeds'] = extra_seeds
     tagset = set(leg.get('tags') or [pid])
     only = leg.get('only_fns')
     hit = lambda tags: bool(tagset & set(ob.tag_props(tags)))
@@ -351,7 +512,7 @@ def decide_verus_leg(pid, leg, tier, seed, log):
 def run_canaries(leg, pid, log):
     """Every contracted function of the property with `assert(false)` at entry: each must FAIL (otherwise its precondition is contradictory)."""
     u = UnitRun(leg['unit'], leg['vcfile'], leg['defines'], leg['variant'], canary=True).build()
-    res = u.verify(seed=0, multiple_errors=2)
+    res = u.verify(seed=0, multiple_errors=2, use_cache=(os.environ.get('VERIF_TIER', '') != 'thorough' and not NO_CACHE))
     if res.get('frontend_error'):
         raise Undecided('verus front end on canary unit %s: %s' % (u.label, res['frontend_error']))
     tagset = set(leg.get('tags') or [pid])
@@ -410,6 +571,8 @@ def main():
     ap.add_argument('--no-cache', action='store_true')
     a = ap.parse_args()
     pid = a.pid
+    global NO_CACHE
+    NO_CACHE = a.no_cache or a.tier == 'thorough'
     seed = int(os.environ.get('VERIF_SEED', '0') or 0)
     t0 = time.time()
     if pid not in PROPS:
@@ -437,7 +600,8 @@ def main():
                 if info['canary']['vacuous']:
                     raise Undecided('vacuity canary verified (contradictory precondition?) for: %s' % ', '.join(info['canary']['vacuous']))
                 legs.append(info)
-        total = sum(len(i['mine']) for i in legs)
+        kani_res = run_kani(pid, seed, a.tier)
+        total = sum(len(i['mine']) for i in legs) + len(kani_res)
         if total == 0:
             raise Undecided('no obligation carries the tag of %s (vacuous check)' % pid)
     except Undecided as e:
@@ -445,6 +609,13 @@ def main():
         write_evidence(pid, a.tier, seed, t0, [], notes, undecided=str(e))
         return 2
     refuted = [f for i in legs for f in i['refuted']]
+    for k in kani_res:
+        if k['status'] == 'failed':
+            for fc in k['failed_checks']:
+                if 'src/lib.rs' in fc['location'] or 'crates/' in fc['location']:
+                    refuted.append({'obligation': 'kani/' + k['harness'], 'full': 'kani/%s|%s' % (k['harness'], fc['description']), 'fn': k['harness'],
+                                    'detail': {'message': 'Kani: ' + fc['description'], 'fn': k['harness'], 'kind': k['kind'], 'bound': k.get('bound'),
+                                               'where': [{'label': 'failed check', 'origin': fc['location'], 'text': fc['check'], 'primary': True}]}})
     kf = [k for k in known.get('findings', []) if k['property'] == pid]
     kf_obl = {o for k in kf for o in k['obligations']}
     new = [f for f in refuted if f['full'] not in kf_obl]
@@ -480,11 +651,13 @@ def main():
                 print('     %s %s | %s' % (w['label'] or '', w['origin'], w['text'][:140]))
         print('VIOLATION property=%s replay=%s%s' % (pid, path, '' if wit else ' no-failing-input-found'))
         rc = 1
-    write_evidence(pid, a.tier, seed, t0, legs, notes, refuted=refuted, new=new, known=kf_report, kf_obl=kf_obl, bounded=bounded)
+    write_evidence(pid, a.tier, seed, t0, legs, notes, refuted=refuted, new=new, known=kf_report, kf_obl=kf_obl, bounded=bounded, kani=kani_res)
     if rc == 0:
         ev = json.load(open(os.path.join(EVID, pid + '.json')))
-        print('OK property=%s obligations=%d discharged=%d units=%s wall=%.1fs' % (
-            pid, ev['coverage']['obligations'], ev['coverage']['discharged'], ','.join(i['unit'].label for i in legs), time.time() - t0))
+        bd = ev['coverage'].get('bounded_stand_ins_not_counted_as_proved', [])
+        print('OK property=%s obligations=%d discharged=%d units=%s kani_harnesses=%d bounded_stand_ins=%d/%d wall=%.1fs' % (
+            pid, ev['coverage']['obligations'], ev['coverage']['discharged'], ','.join(i['unit'].label for i in legs), len(kani_res),
+            len([b for b in bd if b['status'] == 'passed']), len(bd), time.time() - t0))
     return rc
 
 
@@ -526,6 +699,23 @@ ENV_SEARCH_PROPS = {'C05', 'C08', 'C10', 'C11', 'C12', 'C13', 'C14'}
 def witness_search(pid, new, tier, seed, replay_path):
     """After a Verus refutation: look for a concrete failing history on the real code (never changes the verdict).
     Book-level histories for obligations of the book / market units, environment-level histories for the env units."""
+    if pid in ('C16', 'C17'):
+        b = build_replay()
+        if not b:
+            return None
+        out = replay_path + '.witness'
+        cmd = [b, 'agents', '--prop', pid, '--seed', str(seed), '--out', out]
+        p = subprocess.run(cmd, capture_output=True, text=True)
+        if p.returncode == 1 and os.path.exists(out):
+            w = json.load(open(out))
+            os.remove(out)
+            doc = json.load(open(replay_path))
+            doc['witness'] = w
+            doc['witness_cmd'] = ' '.join(cmd)
+            doc['note'] += '; witness = a configuration of the real agents / environment / generator on which the executable twin of the refuted clause fails'
+            json.dump(doc, open(replay_path, 'w'), indent=1)
+            return w
+        return None
     units = {f['obligation'].split('/')[0].split('_')[0] for f in new}
     want_env = bool(units & {'env', 'menv'}) and pid in ENV_SEARCH_PROPS
     want_book = bool(units - {'env', 'menv'}) and pid in SEARCH_PROPS
@@ -580,7 +770,7 @@ def replay_file(pid, path):
     return 1 if doc.get('failed_obligations') else 0
 
 
-def write_evidence(pid, tier, seed, t0, legs, notes, refuted=(), new=(), undecided=None, known=(), kf_obl=(), bounded=()):
+def write_evidence(pid, tier, seed, t0, legs, notes, refuted=(), new=(), undecided=None, known=(), kf_obl=(), bounded=(), kani=()):
     os.makedirs(EVID, exist_ok=True)
     ref_ids = {f['obligation'] for f in refuted}
     # obligations that only fail through a listed known finding are reported apart and not counted as proof obligations
@@ -589,6 +779,13 @@ def write_evidence(pid, tier, seed, t0, legs, notes, refuted=(), new=(), undecid
     kf_only = kf_ids - new_ids
     obligations = sum(len([o for o in i['mine'] if o['id'] not in kf_only]) for i in legs)
     discharged = obligations - len([1 for i in legs for o in i['mine'] if o['id'] in new_ids])
+    # Kani: complete (loop-free, full-domain) harnesses are proof obligations; bounded ones are listed apart and never counted as proved
+    kcomplete = [k for k in kani if k['kind'] == 'complete' and ('kani/' + k['harness']) not in kf_only]
+    kbounded = [k for k in kani if k['kind'] == 'bounded']
+    obligations += len(kcomplete)
+    discharged += len([k for k in kcomplete if k['status'] == 'successful'])
+    bounded = list(bounded) + [{'name': 'kani/' + k['harness'], 'label': 'bounded', 'bound': k['bound'], 'claim': k['text'], 'status': 'passed' if k['status'] == 'successful' else 'failed',
+                                'seconds': k['seconds'], 'checks': k['checks'], 'cmd': k['cmd'], 'result_from_cache': k.get('result_from_cache')} for k in kbounded]
     samples = []
     fns = {}
     assumptions = []
@@ -605,18 +802,24 @@ def write_evidence(pid, tier, seed, t0, legs, notes, refuted=(), new=(), undecid
         assumptions.extend(i['assumptions'])
         units.append({'unit': u.label, 'generated_file': os.path.relpath(u.rs, ROOT), 'sha256': u.meta['sha256'], 'sources': u.meta['sources'], 'verus_cmd': i['res'].get('cmd'),
                       'functions_verified_in_unit': i['res']['verified'], 'errors_in_unit': i['res']['errors'], 'smt_ms': i['res']['smt_ms'], 'wall_s': round(i['res'].get('wall_s', 0), 1),
-                      'result_from_cache': bool(i['res'].get('cache_hit')), 'cache_key': 'sha256 of generated unit text + seed + rlimit + verus version',
+                      'result_from_cache': bool(i['res'].get('cache_hit')), 'further_solver_seeds': i['res'].get('extra_seeds', []), 'cache_key': 'sha256 of generated unit text + seed + rlimit + verus version',
                       'canaries': i.get('canary'), 'preconditions_checked_at_call_sites': len(i['pre']),
                       'per_function_solver': i['fn_stats'], 'dropped_items_not_under_contract': u.meta['dropped']})
         rc = {}
         for r in u.meta['rules']:
             rc.setdefault(r['rule'], []).append('%s:%s %s' % (r['file'], r['line'], r['what']))
         rules.append({'unit': u.label, 'rewrite_rule_applications': {k: {'count': len(v), 'examples': v[:6]} for k, v in rc.items()}})
+    for k in kani:
+        if len(samples) < 16:
+            samples.append({'obligation': 'kani/' + k['harness'], 'clause': k['text'], 'kind': k['kind'], 'status': k['status']})
+    only_bounded = (obligations == 0 and bounded)
     ev = {
-        'property_id': pid, 'tier': tier, 'seed': seed, 'level': 'proof' if not undecided else 'other',
+        'property_id': pid, 'tier': tier, 'seed': seed, 'level': 'other' if (undecided or only_bounded) else 'proof',
         'coverage': {
             'obligations': obligations, 'discharged': discharged,
-            'checker_cmd': '; '.join(x['verus_cmd'] or '' for x in units) or 'none',
+            'checker_cmd': '; '.join([x['verus_cmd'] or '' for x in units] + sorted({k['cmd'] for k in kani})) or 'none',
+            'kani_harnesses': [{'harness': k['harness'], 'kind': k['kind'], 'claim': k['text'], 'status': k['status'], 'seconds': k['seconds'], 'cbmc_checks': k['checks'], 'stubs': sorted(set(k.get('stubs') or [])),
+                                'failed_checks': k['failed_checks'], 'result_from_cache': k.get('result_from_cache')} for k in kani],
             'trusted_base': sorted(set(assumptions)) + TRUSTED_ALWAYS,
             'samples': samples or [{'note': 'no obligations (undecided run)'}],
             'functions_under_contract': fns,
@@ -624,8 +827,9 @@ def write_evidence(pid, tier, seed, t0, legs, notes, refuted=(), new=(), undecid
             'refuted_obligations': sorted({f['full'] for f in refuted}), 'new_refutations': sorted({f['full'] for f in new}),
             'bounded_stand_ins_not_counted_as_proved': list(bounded),
             'known_findings': list(known), 'obligations_refuted_by_known_findings_not_counted': sorted(kf_only),
-            'back_end': 'Verus %s (Z3)' % verus_version(),
-            'explanation': undecided or 'every obligation tagged %s in the generated units was discharged by Verus on source extracted from the working tree on this run' % pid,
+            'back_end': 'Verus %s (Z3)' % verus_version() + ('; Kani/CBMC %s' % kani_version() if kani else ''),
+            'explanation': undecided or ('bounded Kani harnesses on the real agent code only (labelled bounded, nothing is counted as proved): every callee of `update` is replaced by a recording stub that is its contract, one trader, symbolic generator' if only_bounded
+                                         else 'every obligation tagged %s in the generated units was discharged by Verus (and every complete Kani harness by CBMC) on source taken from the working tree on this run' % pid),
         },
         'assumptions': TRUSTED_ALWAYS + notes,
         'wall_s': round(time.time() - t0, 2),
